@@ -84,7 +84,21 @@ fn main() {
     };
 
     suite.setup(&ctx);
-    let mut cases_f = std::io::BufWriter::new(std::fs::File::create(format!("{}/cases.txt", out_dir)).unwrap());
+    // the inputs are on disk before anything runs, and every case leaves a start and an end mark: when the
+    // real code takes the whole process down (abort, stack overflow, allocation failure) or hangs, the
+    // check finds the case that was running (DESIGN §5.2)
+    {
+        let mut cases_f = std::io::BufWriter::new(std::fs::File::create(format!("{}/cases.txt", out_dir)).unwrap());
+        for c in &cases {
+            writeln!(cases_f, "{}", c.input.render()).unwrap();
+        }
+        cases_f.flush().unwrap();
+    }
+    let progress = std::sync::Mutex::new(std::fs::File::create(format!("{}/progress.txt", out_dir)).unwrap());
+    let mark = |what: &str, i: usize| {
+        let mut f = progress.lock().unwrap();
+        let _ = writeln!(f, "{} {}", what, i);
+    };
     let mut impl_f = std::io::BufWriter::new(std::fs::File::create(format!("{}/impl.txt", out_dir)).unwrap());
     let mut hist: BTreeMap<String, usize> = BTreeMap::new();
     let mut panics = 0usize;
@@ -112,7 +126,9 @@ fn main() {
     let mut results: Vec<Option<(sx::Sx, bool)>> = (0..cases.len()).map(|_| None).collect();
     if par == 1 {
         for (i, c) in cases.iter().enumerate() {
+            mark("s", i);
             results[i] = Some(run_one(c));
+            mark("e", i);
         }
     } else {
         let next = std::sync::atomic::AtomicUsize::new(0);
@@ -124,7 +140,9 @@ fn main() {
                     if i >= cases.len() {
                         break;
                     }
+                    mark("s", i);
                     let r = run_one(&cases[i]);
+                    mark("e", i);
                     slots.lock().unwrap()[i] = Some(r);
                 });
             }
@@ -135,11 +153,10 @@ fn main() {
         if p {
             panics += 1;
         }
-        writeln!(cases_f, "{}", c.input.render()).unwrap();
+        let _ = c;
         writeln!(impl_f, "{}", obs.render()).unwrap();
     }
     suite.teardown(&ctx);
-    cases_f.flush().unwrap();
     impl_f.flush().unwrap();
     let meta = serde_json::json!({
         "suite": suite_name,
